@@ -1,14 +1,626 @@
-//! C05 harness (stub).
+//! C05: similarity, containment and angular similarity are exact on retained hashes.
+//!
+//! Request lines
+//!   sk a|b <scaled> <num> <ksize> <dna|protein|dayhoff|hp> <seed> <track 0|1> <mins> <abunds>
+//!        builds the sketch in BOTH containers; answer = what the real objects hold
+//!   isz|isect|jac|jacv|ang|angin|angone|angzero  V|T ab|ba
+//!   cc V|T ab|ba <downsample>
+//!   sim V|T ab|ba <ignore_abundance> <downsample>
+//!   cmp|cmpv sig|store|large sim|cont ab|ba        (Comparable impls of Signature / SigStore)
+//!   search sig|store sim|cont ab|ba <threshold as decimal f64 bits>
+//! Integers in decimal, every float as its 16-hex-digit bit pattern (`nan` for NaN).
+use sourmash::encodings::HashFunctions;
+use sourmash::index::search::{search_minhashes, search_minhashes_containment};
+use sourmash::prelude::*;
+use sourmash::signature::{Signature, SigsTrait};
+use sourmash::sketch::minhash::{max_hash_for_scaled, KmerMinHash, KmerMinHashBTree};
+use sourmash::sketch::Sketch;
+use sourmash::storage::SigStore;
+use std::collections::BTreeSet;
 use verif_harness::*;
 
-fn gen(_a: &Args) {
-    let mut o = Out::new();
-    o.case("stub");
+// ------------------------------------------------------------------------------------ generator
+
+#[derive(Clone)]
+struct Sk {
+    scaled: u64,
+    num: u32,
+    ksize: u32,
+    hf: &'static str,
+    seed: u64,
+    track: bool,
+    mins: Vec<u64>,
+    abunds: Vec<u64>,
 }
 
-fn step(_: &mut (), ws: &[&str]) -> String {
+impl Sk {
+    fn line(&self, w: &str) -> String {
+        format!(
+            "sk {} {} {} {} {} {} {} {} {}",
+            w,
+            self.scaled,
+            self.num,
+            self.ksize,
+            self.hf,
+            self.seed,
+            self.track as u8,
+            show_nats(self.mins.iter().cloned()),
+            if self.track { show_nats(self.abunds.iter().cloned()) } else { "-".into() }
+        )
+    }
+    fn limit(&self) -> u64 {
+        if self.scaled == 0 {
+            u64::MAX
+        } else {
+            max_hash_for_scaled(self.scaled)
+        }
+    }
+}
+
+fn isqrt(n: u128) -> u64 {
+    let mut x = (n as f64).sqrt() as u128;
+    while x * x > n {
+        x -= 1;
+    }
+    while (x + 1) * (x + 1) <= n {
+        x += 1;
+    }
+    x as u64
+}
+
+const SQ_BUDGET: u128 = 1u128 << 63;
+
+/// abundance vector for `n` hashes whose squared sum stays <= 2^63
+fn gen_abunds(r: &mut Rng, n: usize, mode: u64) -> Vec<u64> {
+    if n == 0 {
+        return vec![];
+    }
+    let cap = isqrt(SQ_BUDGET / n as u128);
+    match mode {
+        0 => vec![1; n],
+        1 => (0..n).map(|_| r.range(1, 5)).collect(),
+        2 => (0..n).map(|_| r.bits(16).max(1)).collect(),
+        // every entry close to the cap: squared sum just below 2^63
+        3 => (0..n).map(|_| r.range(cap - cap / 8, cap)).collect(),
+        // one dominant entry filling the budget, the others small
+        4 => {
+            let mut v: Vec<u64> = (0..n).map(|_| r.range(1, 3)).collect();
+            let rest: u128 = v.iter().map(|x| (*x as u128) * (*x as u128)).sum();
+            let i = r.below(n as u64) as usize;
+            let rest = rest - (v[i] as u128) * (v[i] as u128);
+            v[i] = isqrt(SQ_BUDGET - rest);
+            v
+        }
+        // any magnitude
+        _ => (0..n).map(|_| r.bits(32).max(1).min(cap)).collect(),
+    }
+}
+
+/// sorted, duplicate-free pool of candidate hashes: small values (dense overlaps), values around
+/// both ceilings, values of every magnitude
+fn pool(r: &mut Rng, size: usize, lim_a: u64, lim_b: u64) -> Vec<u64> {
+    let mut s = BTreeSet::new();
+    let lo = lim_a.min(lim_b);
+    let hi = lim_a.max(lim_b);
+    let style = r.below(4);
+    let mut guard = 0;
+    while s.len() < size && guard < size * 20 {
+        guard += 1;
+        let h = match (style, r.below(10)) {
+            (0, _) => r.below(3 * size as u64 + 1),
+            (1, 0..=5) => r.below(3 * size as u64 + 1),
+            (1, 6) => lo.saturating_sub(r.below(4)),
+            (1, 7) => lo.saturating_add(1 + r.below(4)),
+            (1, _) => hi.saturating_sub(r.below(6)),
+            (2, 0..=2) => lo.saturating_sub(r.below(size as u64 + 1)),
+            (2, 3..=4) => lo.saturating_add(1 + r.below(size as u64 + 1)),
+            (2, 5) => 0,
+            (2, _) => r.bits(64),
+            (_, 0) => u64::MAX - r.below(3),
+            (_, _) => r.bits(64),
+        };
+        if h <= hi {
+            s.insert(h);
+        }
+    }
+    s.into_iter().collect()
+}
+
+const SHAPES: &[&str] = &[
+    "disjoint-a-first",
+    "disjoint-b-first",
+    "disjoint-interleaved",
+    "nested-a-prefix",
+    "nested-a-suffix",
+    "nested-a-middle",
+    "nested-a-random",
+    "nested-b-random",
+    "identical",
+    "interleaved",
+    "a-exhausted-first",
+    "b-exhausted-first",
+    "empty-a",
+    "empty-b",
+    "empty-both",
+    "single-same",
+    "single-diff",
+    "shifted",
+];
+
+/// (A, B) as index sets over the pool
+fn shape(r: &mut Rng, sh: &str, p: &[u64]) -> (Vec<u64>, Vec<u64>) {
+    let n = p.len();
+    let cut = if n == 0 { 0 } else { r.below(n as u64 + 1) as usize };
+    let sub = |r: &mut Rng, v: &[u64], num: u64, den: u64| -> Vec<u64> {
+        v.iter().cloned().filter(|_| r.chance(num, den)).collect()
+    };
+    match sh {
+        "disjoint-a-first" => (p[..cut].to_vec(), p[cut..].to_vec()),
+        "disjoint-b-first" => (p[cut..].to_vec(), p[..cut].to_vec()),
+        "disjoint-interleaved" => (
+            p.iter().cloned().step_by(2).collect(),
+            p.iter().cloned().skip(1).step_by(2).collect(),
+        ),
+        "nested-a-prefix" => (p[..cut].to_vec(), p.to_vec()),
+        "nested-a-suffix" => (p[cut..].to_vec(), p.to_vec()),
+        "nested-a-middle" => {
+            let c2 = cut + r.below((n - cut) as u64 + 1) as usize;
+            (p[cut..c2].to_vec(), p.to_vec())
+        }
+        "nested-a-random" => (sub(r, p, 1, 2), p.to_vec()),
+        "nested-b-random" => (p.to_vec(), sub(r, p, 1, 3)),
+        "identical" => (p.to_vec(), p.to_vec()),
+        "interleaved" => {
+            let mut a = vec![];
+            let mut b = vec![];
+            for h in p {
+                match r.below(3) {
+                    0 => a.push(*h),
+                    1 => b.push(*h),
+                    _ => {
+                        a.push(*h);
+                        b.push(*h)
+                    }
+                }
+            }
+            (a, b)
+        }
+        // A lives in the low part only, B everywhere (overlapping A in part)
+        "a-exhausted-first" => (sub(r, &p[..cut], 2, 3), sub(r, p, 2, 3)),
+        "b-exhausted-first" => (sub(r, p, 2, 3), sub(r, &p[..cut], 2, 3)),
+        "empty-a" => (vec![], p.to_vec()),
+        "empty-b" => (p.to_vec(), vec![]),
+        "empty-both" => (vec![], vec![]),
+        "single-same" => {
+            if n == 0 {
+                (vec![], vec![])
+            } else {
+                (vec![p[cut % n]], vec![p[cut % n]])
+            }
+        }
+        "single-diff" => {
+            if n < 2 {
+                (p.to_vec(), vec![])
+            } else {
+                (vec![p[cut % n]], vec![p[(cut + 1) % n]])
+            }
+        }
+        // B = A shifted by one pool position: long runs of Less/Greater alternation
+        _ => (
+            p[..n.saturating_sub(1)].to_vec(),
+            p[n.min(1)..].to_vec(),
+        ),
+    }
+}
+
+fn gen(a: &Args) {
+    let mut r = Rng::new(a.seed);
+    let mut o = Out::new();
+    let thorough = a.tier == "thorough";
+    let ncases = if a.cases > 0 {
+        a.cases
+    } else if thorough {
+        40_000
+    } else {
+        1_400
+    };
+    let hfs = ["dna", "protein", "dayhoff", "hp"];
+    for ci in 0..ncases {
+        let sh = SHAPES[(ci % SHAPES.len() as u64) as usize];
+        // ---- parameters
+        let regime = r.below(100);
+        let (scaled, num) = if regime < 55 {
+            (*r.pick(&[1u64, 1, 2, 3, 10, 100, 1000, 10_000, 1 << 20, (1 << 31) - 1]), 0u32)
+        } else if regime < 95 {
+            (0u64, *r.pick(&[1u32, 2, 3, 4, 5, 8, 20, 50, 500]))
+        } else {
+            // both set: outside the property's parameter space, the model still has to follow
+            (*r.pick(&[1u64, 2, 1000]), *r.pick(&[3u32, 10, 500]))
+        };
+        let mut pa = Sk {
+            scaled,
+            num,
+            ksize: *r.pick(&[21u32, 31, 51]),
+            hf: "dna",
+            seed: 42,
+            track: r.chance(2, 3),
+            mins: vec![],
+            abunds: vec![],
+        };
+        let mut pb = pa.clone();
+        pb.track = if r.chance(3, 4) { pa.track } else { !pa.track };
+        // different scaled values for the downsample path (scaled-only sketches)
+        let mut ds_case = false;
+        if num == 0 && r.chance(1, 5) {
+            pb.scaled = *r.pick(&[1u64, 2, 3, 10, 100, 1000, 10_000, 1 << 20]);
+            ds_case = pb.scaled != pa.scaled;
+        }
+        // incompatibilities (order of the checks: ksize, hash function, max_hash, seed)
+        if r.chance(1, 9) {
+            for _ in 0..r.range(1, 2) {
+                match r.below(5) {
+                    0 => pb.ksize = pa.ksize + 10,
+                    1 => pb.hf = *r.pick(&hfs[1..]),
+                    2 => {
+                        if num == 0 {
+                            pb.scaled = pa.scaled + 1
+                        } else {
+                            pb.scaled = 1000;
+                            pb.num = 0
+                        }
+                    }
+                    3 => pb.seed = 43,
+                    // a different num is *not* an incompatibility for the code
+                    _ => {
+                        if pb.num != 0 {
+                            pb.num = *r.pick(&[1u32, 2, 7, 500])
+                        }
+                    }
+                }
+            }
+        }
+        // ---- hashes
+        let size = match r.below(20) {
+            0 => 0,
+            1 => 1,
+            2 => 2,
+            3..=12 => r.range(3, 16) as usize,
+            13..=18 => r.range(17, 48) as usize,
+            _ => {
+                if thorough {
+                    r.range(49, 400) as usize
+                } else {
+                    r.range(49, 120) as usize
+                }
+            }
+        };
+        let p = pool(&mut r, size, pa.limit(), pb.limit());
+        let (ma, mb) = shape(&mut r, sh, &p);
+        let fit = |s: &Sk, m: Vec<u64>| -> Vec<u64> {
+            let lim = s.limit();
+            let mut m: Vec<u64> = m.into_iter().filter(|h| *h <= lim).collect();
+            if s.num != 0 {
+                m.truncate(s.num as usize);
+            }
+            m
+        };
+        pa.mins = fit(&pa, ma);
+        pb.mins = fit(&pb, mb);
+        // ---- abundances
+        let mode = r.below(6);
+        pa.abunds = gen_abunds(&mut r, pa.mins.len(), mode);
+        let bmode = if r.chance(2, 3) { mode } else { r.below(6) };
+        pb.abunds = gen_abunds(&mut r, pb.mins.len(), bmode);
+        if pa.mins == pb.mins {
+            match r.below(4) {
+                // identical abundance vectors: the cosine is 1
+                0 | 1 => pb.abunds = pa.abunds.clone(),
+                // parallel, not equal
+                2 => {
+                    if pa.abunds.iter().all(|x| *x < 1 << 20) {
+                        pb.abunds = pa.abunds.iter().map(|x| x * 3).collect()
+                    }
+                }
+                _ => {}
+            }
+        }
+        // zero abundances (reachable through set_hash_with_abundance / conversion)
+        if pa.track && r.chance(1, 25) {
+            for x in pa.abunds.iter_mut() {
+                if r.chance(1, 2) {
+                    *x = 0
+                }
+            }
+        }
+        if pb.track && r.chance(1, 40) {
+            for x in pb.abunds.iter_mut() {
+                *x = 0
+            }
+        }
+        o.case(sh);
+        o.op(&pa.line("a"));
+        o.op(&pb.line("b"));
+        // ---- operations: both containers, both orders
+        for c in ["V", "T"] {
+            for ord in ["ab", "ba"] {
+                o.op(&format!("isz {} {}", c, ord));
+                if r.chance(1, 3) {
+                    o.op(&format!("isect {} {}", c, ord));
+                }
+                o.op(&format!("cc {} {} 0", c, ord));
+                o.op(&format!("jac {} {}", c, ord));
+                o.op(&format!("jacv {} {}", c, ord));
+                o.op(&format!("ang {} {}", c, ord));
+                o.op(&format!("angin {} {}", c, ord));
+                o.op(&format!("angone {} {}", c, ord));
+                o.op(&format!("angzero {} {}", c, ord));
+                for ign in [0, 1] {
+                    o.op(&format!("sim {} {} {} 0", c, ord, ign));
+                    if ds_case || r.chance(1, 4) {
+                        o.op(&format!("sim {} {} {} 1", c, ord, ign));
+                    }
+                }
+                if ds_case || r.chance(1, 4) {
+                    o.op(&format!("cc {} {} 1", c, ord));
+                }
+            }
+        }
+        // ---- Comparable impls and the search predicates
+        let sa: BTreeSet<u64> = pa.mins.iter().cloned().collect();
+        let sb: BTreeSet<u64> = pb.mins.iter().cloned().collect();
+        let common = sa.intersection(&sb).count() as f64;
+        let union = sa.union(&sb).count().max(1) as f64;
+        for ord in ["ab", "ba"] {
+            for kind in ["sig", "store"] {
+                for which in ["sim", "cont"] {
+                    o.op(&format!("cmp {} {} {}", kind, which, ord));
+                    o.op(&format!("cmpv {} {} {}", kind, which, ord));
+                    // thresholds at, just below and just above the exact value, and a random one
+                    let size = if ord == "ab" { sa.len() } else { sb.len() }.max(1) as f64;
+                    let exact = if which == "sim" { common / union } else { common / size };
+                    let t = match r.below(5) {
+                        0 => exact,
+                        1 => f64::from_bits(exact.to_bits().saturating_sub(1)),
+                        2 => f64::from_bits(exact.to_bits() + 1),
+                        3 => 0.0,
+                        _ => r.below(1001) as f64 / 1000.0,
+                    };
+                    o.op(&format!("search {} {} {} {}", kind, which, ord, t.to_bits()));
+                }
+            }
+            if r.chance(1, 50) {
+                o.op(&format!("cmp large sim {}", ord));
+            }
+        }
+    }
+}
+
+// ------------------------------------------------------------------------------------ exec
+
+struct Pair {
+    v: KmerMinHash,
+    t: KmerMinHashBTree,
+}
+
+#[derive(Default)]
+struct St {
+    a: Option<Pair>,
+    b: Option<Pair>,
+}
+
+fn hf_of(s: &str) -> HashFunctions {
+    match s {
+        "dna" => HashFunctions::Murmur64Dna,
+        "protein" => HashFunctions::Murmur64Protein,
+        "dayhoff" => HashFunctions::Murmur64Dayhoff,
+        _ => HashFunctions::Murmur64Hp,
+    }
+}
+
+fn build(ws: &[&str]) -> Pair {
+    let scaled: u64 = ws[2].parse().unwrap();
+    let num: u32 = ws[3].parse().unwrap();
+    let ksize: u32 = ws[4].parse().unwrap();
+    let hf = hf_of(ws[5]);
+    let seed: u64 = ws[6].parse().unwrap();
+    let track = ws[7] == "1";
+    let mins = parse_nats(ws[8]);
+    let abunds = parse_nats(ws[9]);
+    let mut v = KmerMinHash::new(scaled, ksize, hf.clone(), seed, track, num);
+    let mut t = KmerMinHashBTree::new(scaled, ksize, hf, seed, track, num);
+    let mut zeros = false;
+    for (i, h) in mins.iter().enumerate() {
+        let x = if track { abunds[i] } else { 1 };
+        if x == 0 {
+            zeros = true;
+        }
+        v.add_hash_with_abundance(*h, x.max(1));
+        t.add_hash_with_abundance(*h, x.max(1));
+    }
+    if zeros {
+        // abundance 0 is only reachable by overwriting (vector) and by conversion (tree)
+        for (i, h) in mins.iter().enumerate() {
+            if abunds[i] == 0 {
+                v.set_hash_with_abundance(*h, 0);
+            }
+        }
+        t = v.clone().into();
+    }
+    Pair { v, t }
+}
+
+fn show_sk(mins: Vec<u64>, abunds: Option<Vec<u64>>) -> String {
+    format!(
+        "{}|{}",
+        show_nats(mins),
+        match abunds {
+            Some(a) => show_nats(a),
+            None => "none".into(),
+        }
+    )
+}
+
+fn fbits(x: f64) -> String {
+    if x.is_nan() {
+        "nan".into()
+    } else {
+        format!("{:016x}", x.to_bits())
+    }
+}
+
+fn rf(r: Result<f64, sourmash::Error>) -> String {
+    match r {
+        Ok(x) => fbits(x),
+        Err(e) => format!("err {:?}", e),
+    }
+}
+
+fn b01(b: bool) -> &'static str {
+    if b {
+        "1"
+    } else {
+        "0"
+    }
+}
+
+fn verdict(v: f64) -> String {
+    format!("{} {} {}", b01((0.0..=1.0).contains(&v)), b01(v == 1.0), b01(v == 0.0))
+}
+
+fn sig_of(s: Sketch) -> Signature {
+    let mut sig = Signature::default();
+    sig.push(s);
+    sig
+}
+
+fn step(st: &mut St, ws: &[&str]) -> String {
+    if ws[0] == "case" {
+        return "ok".into();
+    }
+    if ws[0] == "sk" {
+        let p = build(ws);
+        let r = format!(
+            "V:{} T:{}",
+            show_sk(p.v.mins(), p.v.abunds()),
+            show_sk(p.t.mins(), p.t.abunds())
+        );
+        if ws[1] == "a" {
+            st.a = Some(p)
+        } else {
+            st.b = Some(p)
+        }
+        return r;
+    }
+    let ord_at = match ws[0] {
+        "cmp" | "cmpv" => 3,
+        "search" => 3,
+        _ => 2,
+    };
+    let (x, y) = match (&st.a, &st.b) {
+        (Some(a), Some(b)) => {
+            if ws[ord_at] == "ba" {
+                (b, a)
+            } else {
+                (a, b)
+            }
+        }
+        _ => return "no-sketch".into(),
+    };
+    let tree = ws[1] == "T";
+    let flag = |i: usize| ws[i] == "1";
     match ws[0] {
-        "case" => "ok".into(),
+        "isz" => {
+            let r = if tree { x.t.intersection_size(&y.t) } else { x.v.intersection_size(&y.v) };
+            match r {
+                Ok((c, s)) => format!("{} {}", c, s),
+                Err(e) => format!("err {:?}", e),
+            }
+        }
+        "isect" => {
+            let r = if tree { x.t.intersection(&y.t) } else { x.v.intersection(&y.v) };
+            match r {
+                Ok((l, s)) => format!("{} {}", show_nats(l), s),
+                Err(e) => format!("err {:?}", e),
+            }
+        }
+        "cc" => {
+            let (r, n) = if tree {
+                (x.t.count_common(&y.t, flag(3)), x.t.size())
+            } else {
+                (x.v.count_common(&y.v, flag(3)), x.v.size())
+            };
+            match r {
+                Ok(c) => format!("{} {}", c, n),
+                Err(e) => format!("err {:?}", e),
+            }
+        }
+        "jac" => rf(if tree { x.t.jaccard(&y.t) } else { x.v.jaccard(&y.v) }),
+        "jacv" => match if tree { x.t.jaccard(&y.t) } else { x.v.jaccard(&y.v) } {
+            Ok(v) => verdict(v),
+            Err(e) => format!("err {:?}", e),
+        },
+        "ang" => rf(if tree { x.t.angular_similarity(&y.t) } else { x.v.angular_similarity(&y.v) }),
+        "angin" | "angone" | "angzero" => {
+            match if tree { x.t.angular_similarity(&y.t) } else { x.v.angular_similarity(&y.v) } {
+                Ok(v) => b01(match ws[0] {
+                    "angin" => (0.0..=1.0).contains(&v),
+                    // binary64 gives 0.99999998658… for identical vectors (conditioning of acos at 1)
+                    "angone" => (v - 1.0).abs() <= 1e-7,
+                    _ => v == 0.0,
+                })
+                .into(),
+                Err(e) => format!("err {:?}", e),
+            }
+        }
+        "sim" => rf(if tree {
+            x.t.similarity(&y.t, flag(3), flag(4))
+        } else {
+            x.v.similarity(&y.v, flag(3), flag(4))
+        }),
+        "cmp" | "cmpv" | "search" => {
+            let kind = ws[1];
+            let cont = ws[2] == "cont";
+            let (sx, sy) = if kind == "large" {
+                (sig_of(Sketch::LargeMinHash(x.t.clone())), sig_of(Sketch::LargeMinHash(y.t.clone())))
+            } else {
+                (sig_of(Sketch::MinHash(x.v.clone())), sig_of(Sketch::MinHash(y.v.clone())))
+            };
+            if ws[0] == "search" {
+                let thr = f64::from_bits(ws[4].parse::<u64>().unwrap());
+                let r = if kind == "store" {
+                    let (nx, ny) = (SigStore::from(sx), SigStore::from(sy));
+                    if cont {
+                        search_minhashes_containment(&nx, &ny, thr)
+                    } else {
+                        search_minhashes(&nx, &ny, thr)
+                    }
+                } else if cont {
+                    search_minhashes_containment(&sx, &sy, thr)
+                } else {
+                    search_minhashes(&sx, &sy, thr)
+                };
+                return r.to_string();
+            }
+            let v = if kind == "store" {
+                let (nx, ny) = (SigStore::from(sx), SigStore::from(sy));
+                if cont {
+                    nx.containment(&ny)
+                } else {
+                    Comparable::similarity(&nx, &ny)
+                }
+            } else if cont {
+                sx.containment(&sy)
+            } else {
+                Comparable::similarity(&sx, &sy)
+            };
+            if ws[0] == "cmp" {
+                fbits(v)
+            } else if v.is_nan() {
+                "nan".into()
+            } else {
+                verdict(v)
+            }
+        }
         _ => "bad-op".into(),
     }
 }
@@ -17,7 +629,7 @@ fn main() {
     let a = args();
     match a.mode.as_str() {
         "gen" => gen(&a),
-        "exec" => exec_loop(|| (), step),
+        "exec" => exec_loop(St::default, step),
         _ => panic!("mode"),
     }
 }
